@@ -137,11 +137,13 @@ namespace mocks
         for (std::size_t c = 0; c < sh->ncells; ++c)
           for (std::size_t s = 0; s < n; ++s)
             K[c][s] = K[c][s] * w;
+        sh->events.back().b = flat_dense(K, sh->ncells, sh->nspec);
         return;
       }
       for (std::size_t c = 0; c < sh->ncells; ++c)
         for (std::size_t s = 0; s < n; ++s)
           K[c][s] = K[c][s] / 2.0 + sh->factored[c * n * n + s * n + s] / 64.0;
+      sh->events.back().b = flat_dense(K, sh->ncells, sh->nspec);
     }
   };
 
@@ -171,11 +173,13 @@ namespace mocks
         for (std::size_t c = 0; c < sh->ncells; ++c)
           for (std::size_t s = 0; s < n; ++s)
             K[c][s] = K[c][s] * w;
+        sh->events.back().b = flat_dense(K, sh->ncells, sh->nspec);
         return;
       }
       for (std::size_t c = 0; c < sh->ncells; ++c)
         for (std::size_t s = 0; s < n; ++s)
           K[c][s] = K[c][s] / 2.0 + (double)J[c][s][s] / 128.0;
+      sh->events.back().b = flat_dense(K, sh->ncells, sh->nspec);
     }
   };
 }  // namespace mocks
